@@ -156,7 +156,7 @@ BUILT = {
             'DESIGN.md 3/C19'),
     'C16': ('model_checking',
             'explicit-state exploration of program histories; six real executions per program, independent format decoders',
-            'For every accepted program history of depth <=3 (thorough 4) over a 12-symbol alphabet under address widths 8/12/16/24/32, '
+            'For every accepted program history of depth <=3 (thorough 4) over a 12-symbol alphabet under address widths 8/10/12/16/24/32, '
             'the exact address->byte map is recovered from two images (fill 00/ff) and the Intel HEX records, the hex dump, the '
             'compact hex format and the listing columns, each decoded by an independent decoder, must give the same map; listing '
             'rows are compared with the reference lines (each statement once, its address, its bytes, nothing for muted lines).',
@@ -184,7 +184,7 @@ BUILT = {
     'C15': ('model_checking',
             'schedule exploration of set-iteration order under an import-hook scheduler (deviation-bounded), plus exhaustive CLI environment product',
             'The explorer owns the only internal source of run-to-run variation, set iteration order: every bespokeasm module is loaded '
-            'through an AST rewrite that makes each iteration of a set of hash-randomised elements a choice point; for 12 programs x 2 '
+            'through an AST rewrite that makes each iteration of a set of hash-randomised elements a choice point; for 13 programs x 2 '
             'formats the default schedule (replayed twice) and every schedule with one (thorough two) deviating choice point must give '
             'identical status, image and pretty print. End to end, the same programs x formats run through the real CLI for every '
             'combination of hash seed, working directory, include-directory order, include-directory spelling and environment.',
